@@ -41,6 +41,12 @@ func c12(args []string) {
 			fmt.Fprintf(w, "ORACLE "+format+"\n", a...)
 		}
 	}
+	kals := make([][]hermes.KalenderConverterFunc, len(fmts))
+	for fi, f := range fmts {
+		for _, sep := range seps {
+			kals[fi] = append(kals[fi], hermes.KalenderConverter(f, sep))
+		}
+	}
 	prevMas := 0
 	for n := 1; n <= last; n++ {
 		t := base.AddDate(0, 0, n)
@@ -75,8 +81,13 @@ func c12(args []string) {
 				if !short {
 					cents = []int{r.intn(101)}
 				}
-				kal := hermes.KalenderConverter(f, sep)
+				// ONE converter instance per format and separator serves all day numbers in ascending order (as the day loop
+				// uses g.Kalender); a second, fresh instance is asked out of order
+				kal := kals[fi][si]
 				text := kal(n)
+				if fresh := hermes.KalenderConverter(f, sep)(n); fresh != text {
+					fail("fmt=%d sep=%q n=%d converter used for consecutive days gives %s, a fresh one %s", fi, sep, n, text, fresh)
+				}
 				for ci, cent := range cents {
 					zt2, mas2 := hermes.DateConverter(cent, f)(text)
 					if mas2 != n || zt2 != t.YearDay() {
